@@ -32,7 +32,7 @@ type pipeline struct {
 	cancel context.CancelFunc
 
 	mu        sync.Mutex
-	forwarded int                 // updates handed to the explorer so far
+	forwarded int // updates handed to the explorer so far
 	onForward func(n int, ts map[string][]*discovery.SDTargets, at time.Time)
 }
 
